@@ -113,6 +113,9 @@ fn session_main(args: &[String], dump: bool) -> i32 {
         RUN_IDX.store(idx, std::sync::atomic::Ordering::Relaxed);
         RUN_STARTED.store(t0.elapsed().as_secs(), std::sync::atomic::Ordering::Relaxed);
         let mut tr = ops::generate(run_seed(base, prof, idx), prof, false);
+        if let Some(n) = std::env::var("DSIM_ISO").ok().and_then(|v| v.parse().ok()) {
+            tr.knobs.iso = n; // experiment knob: fresh-process references per run (99 = all)
+        }
         if !dump {
             // so that the driver knows which run was executing if the process dies
             println!("BEGIN idx={idx}");
@@ -173,17 +176,28 @@ fn replay_main(args: &[String]) -> i32 {
     let opts = RunOpts { miri: false, exe: std::env::current_exe().ok() };
     let mut hit = false;
     let mut harness = false;
-    for (i, r) in tr.runs.iter().enumerate() {
-        let rep = run_one(r, &opts);
-        print_report(i as u64, r, &rep);
-        for v in &rep.violations {
-            if v.inv == "HARNESS" {
-                harness = true;
-                continue;
+    // a trace with a stress phase is re-executed until it fails (the OS decides that phase's
+    // interleaving); everything else is deterministic and runs once
+    let attempts = if tr.runs.iter().any(|r| r.knobs.stress > 0) { arg_u64(args, "--attempts", 20) } else { 1 };
+    for attempt in 0..attempts {
+        for (i, r) in tr.runs.iter().enumerate() {
+            let rep = run_one(r, &opts);
+            print_report(i as u64, r, &rep);
+            for v in &rep.violations {
+                if v.inv == "HARNESS" {
+                    harness = true;
+                    continue;
+                }
+                let p_ok = prop.as_ref().map_or(true, |p| v.props.split(',').any(|x| x == p));
+                let k_ok = key.as_ref().map_or(true, |k| v.key.replace(' ', "_") == *k);
+                hit |= p_ok && k_ok;
             }
-            let p_ok = prop.as_ref().map_or(true, |p| v.props.split(',').any(|x| x == p));
-            let k_ok = key.as_ref().map_or(true, |k| v.key.replace(' ', "_") == *k);
-            hit |= p_ok && k_ok;
+        }
+        if hit {
+            if attempts > 1 {
+                println!("REPLAY-ATTEMPTS {} of at most {attempts}", attempt + 1);
+            }
+            break;
         }
     }
     if hit {
@@ -202,7 +216,8 @@ fn miri_main(args: &[String]) -> i32 {
     let seed = arg_u64(args, "--seed", 0);
     init_process();
     // the workload is either generated from (--profile, --seed) or handed over as explicit text
-    let tr = if let Some(text) = arg_val(args, "--trace-text") {
+    let text = arg_val(args, "--trace-text").or_else(|| arg_val(args, "--trace-file").and_then(|p| std::fs::read_to_string(p).ok()));
+    let tr = if let Some(text) = text {
         match Trace::parse(&text.replace("\\n", "\n")) {
             Ok(t) if !t.runs.is_empty() => t.runs[0].clone(),
             Ok(_) => {
